@@ -15,6 +15,7 @@ Correspondence (DESIGN.md section 6, C03):
 import collections
 import hashlib
 import json
+import time
 
 from .. import core, takio
 from ..core import cz, clist, cbool
@@ -38,6 +39,52 @@ ASSUMPTIONS = [
 HEADER = ("From Coq Require Import ZArith List Bool.\nFrom TV Require Import model.Tak model.Lit.\nImport ListNotations.\n"
           "Definition acc (p : position) (m : mv) : bool := match move p m with Some _ => true | None => false end.\n"
           "Fixpoint nodupb (l : list mv) : bool := match l with [] => true | a :: t => negb (existsb (mv_eqb a) t) && nodupb t end.\n")
+
+
+
+class WeightedCases(core.Cases):
+    """core.Cases with shards cut by weight instead of by count: Coq spends its time elaborating the
+    literals (~3 000 moves/s), so a shard holds at most `budget` units of weight (one unit per move literal,
+    plus what the check itself costs); heavy cases first so that the long shards start first."""
+
+    def __init__(self, *a, budget=4000, **kw):
+        super().__init__(*a, **kw)
+        self.budget = budget
+        self.weights = []
+
+    def add(self, term, meta, weight=1):
+        super().add(term, meta)
+        self.weights.append(weight)
+
+    def run(self, timeout=900):
+        order = sorted(range(len(self.terms)), key=lambda i: -self.weights[i])
+        groups, cur, w = [], [], 0
+        for i in order:
+            if cur and (w + self.weights[i] > self.budget or len(cur) >= self.shard):
+                groups.append(cur)
+                cur, w = [], 0
+            cur.append(i)
+            w += self.weights[i]
+        if cur:
+            groups.append(cur)
+        failing, shard_fail = [], []
+        subs = []
+        for k, g in enumerate(groups):
+            sub = core.Cases(self.prop_id, f"{self.name}{k:03d}", self.header, self.ctype, self.check, self.show, shard=len(g))
+            for i in g:
+                sub.add(self.terms[i], self.metas[i])
+            subs.append(sub)
+        from concurrent.futures import ThreadPoolExecutor
+        d = core.BUILD / self.prop_id / "cases"
+        if d.exists():
+            for old in d.glob(f"{self.name}[0-9][0-9][0-9]_*"):
+                old.unlink()
+        with ThreadPoolExecutor(max_workers=core.NPROC) as ex:
+            for f, sf, _ in ex.map(lambda s: s.run(timeout=timeout), subs):
+                failing += f
+                shard_fail += sf
+        return failing, shard_fail, len(subs)
+
 
 MAX_REPORT = 3      # replays written per clause and run
 MAX_TOTAL = 9       # concrete (position, move) replays written per run
@@ -244,7 +291,29 @@ def constructed_position(rng, size):
         for _ in range(h - 1):
             st.append(tak.Piece.cached(C(rng.randint(0, 1)), K.FLAT))
         squares.append(st)
+    if rng.random() < 0.6:
+        # plant a mover-controlled stack led by a capstone with a wall (or, less often, a capstone) a few
+        # squares away along a free lane: the slides that end on it with a last drop of 1 flatten the wall,
+        # every other way of reaching it is refused
+        mover = C.WHITE if ply % 2 == 0 else C.BLACK
+        for _try in range(8):
+            x, y = rng.randrange(size), rng.randrange(size)
+            dx, dy = rng.choice([(1, 0), (-1, 0), (0, 1), (0, -1)])
+            dist = rng.randint(1, 3)
+            tx, ty = x + dist * dx, y + dist * dy
+            if not (0 <= tx < size and 0 <= ty < size):
+                continue
+            lane = [(x + i * dx) + (y + i * dy) * size for i in range(1, dist)]
+            if any(squares[i] and squares[i][0].kind != K.FLAT for i in lane):
+                continue
+            h = rng.randint(1, size + 1)
+            squares[x + y * size] = [tak.Piece.cached(mover, K.CAPSTONE)] + [tak.Piece.cached(C(rng.randint(0, 1)), K.FLAT) for _ in range(h - 1)]
+            tk = K.STANDING if rng.random() < 0.85 else K.CAPSTONE
+            tcol = C(rng.randint(0, 1))
+            squares[tx + ty * size] = [tak.Piece.cached(tcol, tk)] + [tak.Piece.cached(C(rng.randint(0, 1)), K.FLAT) for _ in range(rng.randint(0, 2))]
+            break
     stones = [sum(1 for sq in squares for x in sq if x.color.value == c and x.kind != K.CAPSTONE) for c in (0, 1)]
+    caps_used = [sum(1 for sq in squares for x in sq if x.color.value == c and x.kind == K.CAPSTONE) for c in (0, 1)]
     pieces = max(stones) + rng.choice([0, 0, 1, 3, 10])
     capstones = max(max(caps_used), maxcaps if rng.random() < 0.5 else max(caps_used))
     cfg = tak.Config(size=size, pieces=pieces, capstones=capstones)
@@ -272,7 +341,8 @@ def positions(run, n_playout_games, per_game, n_constructed, sizes=(3, 4, 5, 6, 
                 kind = "playout"
             for p in playout_positions(rng, size, cfg, max_ply=rng.choice([8, 20, 40, 70]), take=per_game):
                 add(p, kind)
-        for _ in range(n_constructed):
+        # the lists of 7x7 / 8x8 boards full of tall stacks run to thousands of moves: half as many of those
+        for _ in range(n_constructed if size <= 6 else (n_constructed + 1) // 2):
             add(constructed_position(rng, size), "constructed")
     return out
 
@@ -387,9 +457,9 @@ def _safe(f):
 def _volumes(run):
     if run.quick:
         #        games/size, positions/game, constructed/size, legal-set positions per size (3..8), ill-formed k
-        return dict(games=6, per_game=6, constructed=14, legal_per_size={3: 14, 4: 12, 5: 10, 6: 8, 7: 4, 8: 3}, ill=60)
-    return dict(games=60, per_game=10, constructed=240,
-                legal_per_size={3: 200, 4: 160, 5: 120, 6: 80, 7: 40, 8: 24}, ill=150)
+        return dict(games=6, per_game=6, constructed=14, legal_per_size={3: 60, 4: 40, 5: 24, 6: 12, 7: 4, 8: 3}, ill=60, ill_coq=100)
+    return dict(games=40, per_game=10, constructed=160,
+                legal_per_size={3: 600, 4: 400, 5: 240, 6: 120, 7: 40, 8: 24}, ill=150, ill_coq=250)
 
 
 def correspondence(run):
@@ -397,12 +467,15 @@ def correspondence(run):
     import tak  # noqa
     vol = _volumes(run)
     reported = collections.Counter()
+    t0 = time.time()
+    timing = {}
     ps = positions(run, vol["games"], vol["per_game"], vol["constructed"])
+    timing["positions_s"] = round(time.time() - t0, 1)
 
     # ---- family gen: all_moves() as a list, order included
-    cg = core.Cases(ID, "gen", HEADER, "position * list mv",
-                    "fun c => list_eqb mv_eqb (all_moves (fst c)) (snd c)",
-                    show="fun c => all_moves (fst c)", shard=12)
+    cg = WeightedCases(ID, "gen", HEADER, "position * list mv",
+                       "fun c => list_eqb mv_eqb (all_moves (fst c)) (snd c)",
+                       show="fun c => all_moves (fst c)", shard=40, budget=3500)
     dist = collections.Counter()
     nz = 0
     gen_fail_impl = []
@@ -412,10 +485,13 @@ def correspondence(run):
         except Exception as e:  # noqa
             gen_fail_impl.append((p, e))
             continue
-        cg.add(f"({takio.c_pos(p)}, {clist([takio.c_move(m) for m in ms])})", {"pos": takio.j_pos(p), "kind": kind, "n": len(ms)})
+        cg.add(f"({takio.c_pos(p)}, {clist([takio.c_move(m) for m in ms])})", {"pos": takio.j_pos(p), "kind": kind, "n": len(ms)},
+               weight=len(ms) + 2 * p.size * p.size)
         dist[f"size{p.size}:{kind}"] += 1
         nz += nontrivial(p)
+    t1 = time.time()
     failing, shard_fail, nsh = cg.run()
+    timing["coq_gen_s"] = round(time.time() - t1, 1)
     run.oblige(f"correspondence:gen ({nsh} shards, {len(cg)} positions)", not shard_fail and not failing,
                (str(shard_fail)[:1500] if shard_fail else f"{len(failing)} positions where all_moves() differs from the model's list"))
     run.count(len(cg), nz, "all_moves() of each position compared with the model's list, order included; distinct by position hash; "
@@ -441,52 +517,64 @@ def correspondence(run):
         play.sort(key=lambda x: not nontrivial(x[0]))
         chosen += (cons[: want // 2] + play[: want - want // 2])
     chosen_keys = {pos_key(p) for p, _ in chosen}
-    # positions where model and implementation list different moves: run the oracle there too (smallest boards first)
-    extra = [p for p in sorted(gen_disagree, key=lambda q: q.size) if pos_key(p) not in chosen_keys]
-    chosen += [(p, "gen-disagreement") for p in extra[:10]]
-    cl = core.Cases(ID, "legal", HEADER, "position * list mv * list (mv * bool)",
+    cl = WeightedCases(ID, "legal", HEADER, "position * list mv * list (mv * bool)",
                     "fun c => let '(p, a, ill) := c in let L := filter (acc p) (table (size p)) in "
                     "nodupb a && (Nat.eqb (length a) (length L)) && forallb (fun m => existsb (mv_eqb m) L) a && "
                     "forallb (fun mb => Bool.eqb (acc p (fst mb)) (snd mb)) ill",
                     show="fun c => let '(p, a, ill) := c in (filter (acc p) (table (size p)), "
-                         "filter (fun mb => negb (Bool.eqb (acc p (fst mb)) (snd mb))) ill)", shard=3)
+                         "filter (fun mb => negb (Bool.eqb (acc p (fst mb)) (snd mb))) ill)", shard=20, budget=4000)
     evals = nzl = strays = 0
     ldist = collections.Counter()
     sample = []
     oracle_hits = {}
-    for p, kind in chosen:
+    t2 = time.time()
+    # the implementation-side oracle runs on EVERY position; the chosen ones are also evaluated by the model
+    for p, kind in ps:
         n = p.size
         wfm = _wf_moves(n)
         ill = illformed(run.rng, p, vol["ill"])
         hits, accepted, ill_out, st = oracle(p, wfm, ill, _table_set(n))
         evals += len(wfm) + len(ill)
         strays += st.get("stray_tuple_accepted", 0)
-        ldist[f"size{n}:{kind}"] += 1
         nzl += nontrivial(p)
         for clause, m, detail in hits:
             report(run, p, clause, m, detail, reported)
         oracle_hits[pos_key(p)] = len(hits)
-        illc = [f"({takio.c_move(m)}, {cbool(r == 'ok')})" for m, r in ill_out if not r.startswith("crash")]
+        if pos_key(p) not in chosen_keys:
+            continue
+        ldist[f"size{n}:{kind}"] += 1
+        # to Coq: every accepted ill-formed move and a sample of the refused ones (all of them were tried above)
+        ill_ok = [(m, r) for m, r in ill_out if r == "ok"]
+        ill_no = [(m, r) for m, r in ill_out if r == "illegal"]
+        if len(ill_no) > vol["ill_coq"]:
+            ill_no = run.rng.sample(ill_no, vol["ill_coq"])
+        illc = [f"({takio.c_move(m)}, {cbool(r == 'ok')})" for m, r in ill_ok + ill_no]
         cl.add(f"({takio.c_pos(p)}, {clist([takio.c_move(m) for m in accepted])}, {clist(illc)})",
-               {"pos": takio.j_pos(p), "kind": kind, "legal": len(accepted), "ill": len(ill_out)})
+               {"pos": takio.j_pos(p), "kind": kind, "legal": len(accepted), "ill": len(ill_out)},
+               weight=len(accepted) + len(illc) + len(wfm) // 8)
         if len(sample) < 3 and nontrivial(p):
             sample.append({"position": takio.j_pos(p), "generated": st["generated"], "legal": st["legal"],
                            "universe": len(wfm), "illformed_tried": len(ill)})
+    timing["oracle_s"] = round(time.time() - t2, 1)
+    t3 = time.time()
     failing2, shard_fail2, nsh2 = cl.run()
+    timing["coq_legal_s"] = round(time.time() - t3, 1)
+    run.extra["timing"] = timing
+    run.extra["positions_in_coq_legal_family"] = dict(ldist)
     run.oblige(f"correspondence:legal ({nsh2} shards, {len(cl)} positions)", not shard_fail2 and not failing2,
                (str(shard_fail2)[:1500] if shard_fail2 else f"{len(failing2)} positions whose accepted set differs from the model's legal set"))
-    run.oblige("oracle: every accepted canonical move is generated once, is well-formed and (sizes 3-6) a table entry; "
+    run.oblige(f"oracle ({len(ps)} positions): every accepted canonical move is generated once, is well-formed and (sizes 3-6) a table entry; "
                "generated moves are table entries; only IllegalMove is raised", not reported, str(dict(reported)))
     run.count(evals, nzl, "legal set by trying move() over the whole move universe of the size (own enumerator; + MOVES_BY_SIZE on 3-6) "
               "and the ill-formed stream; evaluations = (position, move) pairs; distinct_nontrivial = distinct positions "
               "past the opening where the mover controls a stack of height >= 2",
-              sample, dict(ldist), label="legal")
+              sample, {f"size{n}": len(l) for n, l in sorted(by_size.items())}, label="legal")
     run.extra["stray_tuple_placements_accepted_and_skipped"] = strays
     run.extra["universe_sizes"] = {n: len(universe(n)) for n in sorted(by_size)}
 
     # ---- disagreements with the model that the oracle did not already turn into a (position, move) hit
     pinned = 0
-    for meta in failing2:
+    for meta in sorted(failing2, key=lambda mt: (mt["pos"]["size"], mt["legal"])):     # smallest boards first
         p = takio.mk_pos(meta["pos"])
         if oracle_hits.get(pos_key(p)) or pinned >= 3:
             continue
